@@ -4,7 +4,8 @@ histories is NOT decided."""
 import re
 from engine import absint
 from engine.absint import region_constraints as RC, outcome_str
-from engine.rules import (MustPass, outcome, success_values, call_checked, root_fn, loop_each_checked, variant_switches)
+from engine.rules import (MustPass, Outcome, outcome, success_values, call_checked, root_fn, loop_each_checked, variant_switches,
+                          _callee_key)
 from engine.sym import strip, strip_deep, render, walk, short
 from props import common as K
 
@@ -27,6 +28,120 @@ CL = "rtr::client::Client::<Sock, Target>::"
 PDU = "rtr::pdu::"
 END = r"Try::branch\(read::\{closure#0\}\(__awaitee⟵Payload::read\([$^]self\.sock\), .*\)↓Ready\.0\)↓Continue\.0↓Err\.0"
 PAY = r"Try::branch\(read::\{closure#0\}\(__awaitee⟵Payload::read\([$^]self\.sock\), .*\)↓Ready\.0\)↓Continue\.0↓Ok\.0↓Some\.0"
+
+
+# Result combinators that hand the variant of their receiver on unchanged (Ok stays Ok, Err stays Err) and do nothing else
+_RESULT_VARIANT_KEEPING = {("std::result::Result", "map"), ("std::result::Result", "map_err"),
+                           ("std::result::Result", "inspect"), ("std::result::Result", "inspect_err")}
+
+
+def _plain_local(op, body):
+    """The local an operand moves/copies wholesale (no projection, not a parameter), or None."""
+    pl = op.get("m") or op.get("c")
+    if pl and not pl["p"] and pl["l"] > body.arg_count:
+        return pl["l"]
+    return None
+
+
+class ExchangeOutcome(Outcome):
+    """Which blocks decide that the exchange function returns a failure — also when the value returned is the result
+    of an awaited part of the exchange whose body is seen in place (`self.part().await`, `self.part().await.map(Some)`).
+
+    The fact decided is the one `Outcome` decides ("this block assigns an Err to what is returned"); the only thing
+    added is what counts as *what is returned*.  Besides locals moved wholesale into the return place these are
+      * the result `x` completing an awaited body seen in place:  `p = Poll::Ready(x)` … `r = (p as Ready).0` with `r`
+        returned, and
+      * the receiver of a variant-keeping Result combinator whose result is returned (`x.map(f)` is Err iff `x` is).
+    Every exit of such a body assigns its own local (def-use webs are split by the engine), so an `Err(..)` /
+    `from_residual(..)` assigned to one of them is a failure of the whole function exactly as an assignment to the
+    return place is.  On a body without these shapes this is `Outcome` itself."""
+
+    def _carriers(self):
+        b = self.body
+        car = set(Outcome._carriers(self))
+        polls = set()         # Poll<Result<..>> locals whose Ready payload is returned
+        changed = True
+        while changed:
+            changed = False
+            for blk in b.blocks:
+                if blk.get("cleanup"):
+                    continue
+                for s in blk["stmts"]:
+                    if s["s"] != "assign" or s["pl"]["p"]:
+                        continue
+                    dst, rv = s["pl"]["l"], s["rv"]
+                    if dst in car and rv["r"] == "use":
+                        pl = rv["op"].get("m") or rv["op"].get("c")
+                        if not pl or pl["l"] <= b.arg_count:
+                            continue
+                        pp = [p for p in pl["p"] if p[0] != "d"]
+                        if not pp and not pl["p"] and pl["l"] not in car:
+                            car.add(pl["l"])
+                            changed = True
+                        elif len(pp) == 2 and len(pl["p"]) == 2 and pp[0][0] == "dc" and pp[0][1] == "Ready" and pp[1][0] == "f" \
+                                and pl["l"] not in polls:
+                            polls.add(pl["l"])
+                            changed = True
+                    elif dst in polls and rv["r"] == "agg" and rv.get("ak") == "adt" and rv.get("variant") == "Ready" \
+                            and len(rv["ops"]) == 1:
+                        l = _plain_local(rv["ops"][0], b)
+                        if l is not None and l not in car:
+                            car.add(l)
+                            changed = True
+                t = blk["term"]
+                if t["t"] == "call" and not t["dest"]["p"] and t["dest"]["l"] in car and t["args"]:
+                    k = t["func"].get("k") if isinstance(t["func"], dict) else None
+                    if k and _callee_key(k) in _RESULT_VARIANT_KEEPING:
+                        l = _plain_local(t["args"][0], b)
+                        if l is not None and l not in car:
+                            car.add(l)
+                            changed = True
+        self.polls = polls
+        return car
+
+    def returned_values(self):
+        """Terms assigned to what is returned in non-failure blocks, [(bb, term)] — without the assignments that only
+        hand such a value on (moves between carriers, the Ready payload, a variant-keeping combinator on a carrier)."""
+        b = self.body
+        out = []
+        for bi in sorted(self.success_assign_blocks):
+            blk = b.blocks[bi]
+            for st in blk["stmts"]:
+                if st["s"] != "assign" or st["pl"]["p"] or st["pl"]["l"] not in self.carriers:
+                    continue
+                rv = st["rv"]
+                if rv["r"] == "use":
+                    pl = rv["op"].get("m") or rv["op"].get("c")
+                    if pl and (pl["l"] in self.carriers or pl["l"] in self.polls):
+                        continue
+                t = strip_deep(self.sym.rvalue(rv))
+                if not self._is_fail_term(t):
+                    out.append((bi, t))
+            t = blk["term"]
+            if t["t"] == "call" and not t["dest"]["p"] and t["dest"]["l"] in self.carriers:
+                k = t["func"].get("k") if isinstance(t["func"], dict) else None
+                if k and _callee_key(k) in _RESULT_VARIANT_KEEPING and t["args"] and _plain_local(t["args"][0], b) in self.carriers:
+                    continue
+                out.append((bi, strip_deep(self.sym.call(t, bi))))
+        return out
+
+
+def timing_store(s, rv):
+    """How an assignment to the client's `timing` relates to the End-of-Data PDU just received:
+      "when-some" — the value is the payload of `end.timing()` (only meaningful on the Some edge of a match on it);
+      "always"    — the value is `end.timing().unwrap_or(self.timing)`: the PDU's timing when it carries one, the
+                    value the field already has otherwise (no change) — decided per value of `end.timing()`, so the
+                    store may stand unconditionally on the path;
+      None        — anything else (another write of the timing)."""
+    t = strip_deep(s.rvalue(rv))
+    if re.match(r"^EndOfData::timing\(%s\)↓Some\.0$" % END, render(t)):
+        return "when-some"
+    if t[0] == "call" and (t[3] or {}).get("name") == "unwrap_or" and len(t[2]) == 2 and \
+            re.match(r"^(std|core)::option::Option::<", (t[3] or {}).get("fn") or "") and \
+            re.match(r"^EndOfData::timing\(%s\)$" % END, render(strip_deep(t[2][0]))) and \
+            re.match(r"^[$^]self\.timing$", render(strip_deep(t[2][1]))):
+        return "always"
+    return None
 
 
 def check_server_sends_items_in_order(ctx, f, rule="R-CHK"):
@@ -120,10 +235,11 @@ def run(ctx):
             ctx.missing("R-CHK", "Client::" + meth, n)
             continue
         ctx.saw_fn(n)
-        oc = outcome(b)
+        # failure exits of the function, also those of an awaited part of the exchange seen in place (ExchangeOutcome)
+        oc = ExchangeOutcome(b, K.sym_of(b))
         s = oc.sym
         # ---- state / timing adoption ------------------------------------------------
-        st_blocks, tm_blocks, other_state = set(), set(), []
+        st_blocks, tm_blocks, tm_always, other_state = set(), set(), set(), []
         for bi, blk in enumerate(b.blocks):
             if blk.get("cleanup"):
                 continue
@@ -138,12 +254,14 @@ def run(ctx):
                     else:
                         other_state.append(r)
                 if fl[-1:] == ["timing"] and "Client" in (st["pl"]["p"][-1][2] if st["pl"]["p"][-1][0] == "f" else ""):
-                    r = render(strip_deep(s.rvalue(st["rv"])))
-                    if re.match(r"^EndOfData::timing\(%s\)↓Some\.0$" % END, r):
+                    how = timing_store(s, st["rv"])
+                    if how == "when-some":
                         tm_blocks.add(bi)
+                    elif how == "always":
+                        tm_always.add(bi)
                     else:
-                        other_state.append("timing=" + r)
-        upd = [(bi, render(t)) for bi, _, t in success_values(b, oc)]
+                        other_state.append("timing=" + render(strip_deep(s.rvalue(st["rv"]))))
+        upd = [(bi, render(t)) for bi, t in oc.returned_values()]
         upd_blocks = [bi for bi, r in upd if "PayloadTarget::start" in r]
         ok = bool(st_blocks) and bool(upd_blocks) and all(ub not in b.reachable(0, removed_blocks=set(oc.fail_blocks) | st_blocks) for ub in upd_blocks)
         ctx.ob("R-CHK", "Client::%s:update-only-after-adopting-EndOfData-state" % meth, ok,
@@ -160,6 +278,10 @@ def run(ctx):
             some_t = [tb for v, tb in b.switch_edges(tsw[0]) if v == 1]
             okt = bool(some_t) and all(ub not in b.reachable(some_t[0], removed_blocks=tm_blocks) for ub in upd_blocks) and \
                 all(tb in b.reachable(some_t[0]) for tb in tm_blocks)
+        elif tm_always and not tm_blocks and bool(upd_blocks):
+            # the store that adopts the timing for every value of end.timing() (timing_store "always") needs no match:
+            # it has to lie on every path that returns the update
+            okt = all(ub not in b.reachable(0, removed_blocks=set(oc.fail_blocks) | tm_always) for ub in upd_blocks)
         ctx.ob("R-CHK", "Client::%s:timing-adopted-when-present" % meth, okt,
                "when the End-of-Data PDU carries timing values Client::%s stores them before returning the update" % meth, where=b.loc)
         # ---- the update returned is the one started with the right reset flag ------------
@@ -167,7 +289,9 @@ def run(ctx):
         # `self` is the captured receiver, read through a local copy (`$self`) or directly (`^self`)
         oks = len(starts) == 1 and K.arg_renders(starts[0]) in (["$self.target", reset_flag], ["^self.target", reset_flag])
         want_rx = r"\w+⟵PayloadTarget::start\([$^]self\.target, %s\)" % reset_flag      # whatever the local is called
-        oks = oks and all(re.search(want_rx, r) for bi, r in upd if bi in upd_blocks)
+        # "returns that very update" is a statement about the update returns: none found ⇒ not established here
+        # (it is then decided on the view that shows the awaited part of the exchange in place)
+        oks = oks and bool(upd_blocks) and all(re.search(want_rx, r) for bi, r in upd if bi in upd_blocks)
         ctx.ob("R-FLOW", "Client::%s:target-started-with-reset=%s" % (meth, reset_flag), oks,
                "Client::%s starts the target update with reset=%s and returns that very update" % (meth, "true" if reset_flag == "1" else "false"),
                where=b.loc, detail=[K.arg_renders(c) for c in starts])
